@@ -1606,6 +1606,13 @@ package decimal128
 //@ assert before "i := 0": forall k in 6..7: sig[k] == (sig128[1] / pow2(56 - 8 * k)) % 256
 //@ assert before "i := 0": forall k in 6..7: sig[k + 8] == (sig128[0] / pow2(56 - 8 * k)) % 256
 //@ assert before "i := 0": u128(sig128) == sum k in 0..15: sig[k] * pow2(8 * (15 - k))
+//@ ensures !special(d) && coef(d) != 0 ==> be(sig, len(sig)) == coef(d)
+//@ assert before "i := 0": be(sig, 0) == 0 && be(sig, 1) == sig[0] && be(sig, 2) == 256 * be(sig, 1) + sig[1] && be(sig, 3) == 256 * be(sig, 2) + sig[2] && be(sig, 4) == 256 * be(sig, 3) + sig[3]
+//@ assert before "i := 0": be(sig, 5) == 256 * be(sig, 4) + sig[4] && be(sig, 6) == 256 * be(sig, 5) + sig[5] && be(sig, 7) == 256 * be(sig, 6) + sig[6] && be(sig, 8) == 256 * be(sig, 7) + sig[7]
+//@ assert before "i := 0": be(sig, 9) == 256 * be(sig, 8) + sig[8] && be(sig, 10) == 256 * be(sig, 9) + sig[9] && be(sig, 11) == 256 * be(sig, 10) + sig[10] && be(sig, 12) == 256 * be(sig, 11) + sig[11]
+//@ assert before "i := 0": be(sig, 13) == 256 * be(sig, 12) + sig[12] && be(sig, 14) == 256 * be(sig, 13) + sig[13] && be(sig, 15) == 256 * be(sig, 14) + sig[14] && be(sig, 16) == 256 * be(sig, 15) + sig[15]
+//@ assert before "i := 0": be(sig, 16) == u128(sig128)
+//@ loop 1: invariant be(sig, i, 16 - i) == u128(sig128) && u128(sig128) == coef(d) && coef(d) != 0
 //@ props C14 C20
 
 //@ func uint256.lsh
@@ -1629,6 +1636,7 @@ package decimal128
 //@ uses rssteps=1,4,19 rsmono=0,1,36 timeout=60
 //@ returns (err)
 //@ logical V real
+//@ define FITS = (len(old(sig)) <= 16 && rs(V, old(exp) + 6176) <= real(M) && 0 - 6176 <= old(exp) && old(exp) <= 6111)
 //@ requires len(sig) <= 100000 && V >= 0 && rs(V, exp + 6176) == be(sig, len(sig)) && exp <= 2147483600
 //@ ensures form == 1 ==> tag(err) == 0 && isinf(*d) && sign(*d) == neg && lo(*d) == 0
 //@ ensures form == 2 ==> tag(err) == 0 && isnan(*d) && !sign(*d) && lo(*d) == payloadOpCompose
@@ -1659,6 +1667,10 @@ package decimal128
 //@ loop 9: decreases exp
 //@ loop 2: invariant form == 0 && *d == old(*d) && *bigsig >= 1 && rs(V, exp + 6176) == real(*bigsig) && *den == 10000000000000000000 && exp <= 6111
 //@ loop 2: decreases *bigsig
+//@ ensures form == 0 && FITS ==> tag(err) == 0
+//@ loop 7: invariant FITS ==> exp == old(exp)
+//@ loop 8: invariant FITS ==> exp == old(exp)
+//@ loop 9: invariant FITS ==> exp == old(exp)
 //@ props C14 C20
 
 // ---------------------------------------------------------------------------
@@ -2259,6 +2271,8 @@ package decimal128
 //@ ensures POWTEN && ye <= 6183 && yc <= 6111 && EE < 0 - 6176 ==> !special(r) && bexp(r) == 0 && coef(r) <= 1
 //@ ensures POWTEN && ye <= 6183 && yc <= 6111 && EE >= 0 - 6176 && EE <= 6145 ==> !special(r) && RndOK(DefaultRoundingMode, sign(d), rs(W, bexp(r)), coef(r), bexp(r))
 //@ ensures LADDER && DFin && !sign(d) && xc == 1 && xe % 2 == 0 && yc == 5 && ye == 6175 ==> !special(r) && !sign(r) && coef(r) == 1 && bexp(r) == 6176 + ite(sign(o), 0 - (xe - 6176) / 2, (xe - 6176) / 2)
+//@ callarg Decimal.PowWithMode#1: arg_d == d && arg_o == o && arg_mode == DefaultRoundingMode
+//@ ensures r == callres_PowWithMode_1
 //@ props C18 C15 C20
 
 // ---------------------------------------------------------------------------------------------
@@ -3534,3 +3548,103 @@ package decimal128
 //@ apply before "return v, err1, err2, eq" when {FIN}: cmpmag_is_real_order(V, V, XC, XE, C, E)
 //@ ensures !special(d) ==> eq
 //@ props C13
+
+// Antisymmetry and transitivity of the order Cmp reports (C04), as theorems about three calls.
+//@ func verifCmpOrder
+//@ returns (xy, yx, yz, xz)
+//@ logical Vx real, Vy real, Vz real
+//@ requires !special(x) ==> Vx >= 0 && rs(Vx, bexp(x)) == coef(x)
+//@ requires !special(y) ==> Vy >= 0 && rs(Vy, bexp(y)) == coef(y)
+//@ requires !special(z) ==> Vz >= 0 && rs(Vz, bexp(z)) == coef(z)
+//@ call Decimal.Cmp#1: Vd = Vx
+//@ call Decimal.Cmp#1: Vo = Vy
+//@ call Decimal.Cmp#2: Vd = Vy
+//@ call Decimal.Cmp#2: Vo = Vx
+//@ call Decimal.Cmp#3: Vd = Vy
+//@ call Decimal.Cmp#3: Vo = Vz
+//@ call Decimal.Cmp#4: Vd = Vx
+//@ call Decimal.Cmp#4: Vo = Vz
+//@ ensures (isnan(x) || isnan(y)) <==> xy == 0 - 2
+//@ ensures xy == 0 - 2 || xy == 0 - 1 || xy == 0 || xy == 1
+//@ ensures xy != 0 - 2 ==> yx == 0 - xy
+//@ ensures xy == 0 - 2 ==> yx == 0 - 2
+//@ ensures (xy == 0 - 1 || xy == 0) && (yz == 0 - 1 || yz == 0) ==> (xz == 0 - 1 || xz == 0)
+//@ ensures xy == 0 - 1 && (yz == 0 - 1 || yz == 0) ==> xz == 0 - 1
+//@ ensures (xy == 0 - 1 || xy == 0) && yz == 0 - 1 ==> xz == 0 - 1
+//@ ensures xy == 0 && yz == 0 ==> xz == 0
+//@ props C04
+
+// Compare is a total order with NaN first (C04): reflexive, antisymmetric, transitive, total.
+//@ func verifCompareOrder
+//@ returns (xy, yx, yz, xz, xx)
+//@ logical Vx real, Vy real, Vz real
+//@ requires !special(x) ==> Vx >= 0 && rs(Vx, bexp(x)) == coef(x)
+//@ requires !special(y) ==> Vy >= 0 && rs(Vy, bexp(y)) == coef(y)
+//@ requires !special(z) ==> Vz >= 0 && rs(Vz, bexp(z)) == coef(z)
+//@ call Compare#1: Vd = Vx
+//@ call Compare#1: Vo = Vy
+//@ call Compare#2: Vd = Vy
+//@ call Compare#2: Vo = Vx
+//@ call Compare#3: Vd = Vy
+//@ call Compare#3: Vo = Vz
+//@ call Compare#4: Vd = Vx
+//@ call Compare#4: Vo = Vz
+//@ call Compare#5: Vd = Vx
+//@ call Compare#5: Vo = Vx
+//@ ensures xx == 0
+//@ ensures xy == 0 - 1 || xy == 0 || xy == 1
+//@ ensures yx == 0 - xy
+//@ ensures xy <= 0 && yz <= 0 ==> xz <= 0
+//@ ensures xy < 0 && yz <= 0 ==> xz < 0
+//@ ensures xy <= 0 && yz < 0 ==> xz < 0
+//@ ensures isnan(x) && !isnan(y) ==> xy == 0 - 1
+//@ props C04
+
+// Ldexp(Frexp(d)) is Equal to d with d's sign; zeros, NaN and Inf come back bit for bit (C11).
+//@ func verifFrexpLdexp
+//@ returns (r, eq)
+//@ logical V real
+//@ requires DefaultRoundingMode <= 5
+//@ requires !special(d) && coef(d) != 0 ==> V > 0 && rs(V, bexp(d)) == coef(d)
+//@ call Ldexp#1: V = V
+//@ ensures special(d) || coef(d) == 0 ==> r == d
+//@ ensures !special(d) ==> !special(r) && sign(r) == sign(d)
+//@ ensures !special(d) && coef(d) != 0 ==> rs(V, bexp(r)) == coef(r)
+//@ ensures !isnan(d) ==> eq
+//@ uses order=file
+//@ define E = bexp(d)
+//@ define C = coef(d)
+//@ define XE = bexp(r)
+//@ define XC = coef(r)
+//@ define RM = DefaultRoundingMode
+//@ define FIN = (!special(d) && !special(r) && C != 0)
+//@ define LOW = (FIN && XE <= E)
+//@ define HIGH = (FIN && XE > E)
+//@ apply before "return r, eq" when {LOW}: rs_pw10n(V, XE, E - XE)
+//@ apply before "return r, eq" when {LOW}: pw10n_pos(E - XE)
+//@ assert before "return r, eq": LOW ==> rs(V, XE) == real(C * pw10(E - XE))
+//@ apply before "return r, eq" when {LOW}: rnd_exact_int(RM, sign(d), C * pw10(E - XE), XC, XE)
+//@ assert before "return r, eq": LOW ==> rs(V, XE) == XC
+//@ apply before "return r, eq" when {HIGH}: rs_pw10n(V, E, XE - E)
+//@ apply before "return r, eq" when {HIGH}: pw10n_step1(XE - E)
+//@ apply before "return r, eq" when {HIGH}: pw10n_pos(XE - E - 1)
+//@ apply before "return r, eq" when {HIGH}: scale_le(rs(V, XE), pw10(XE - E), C)
+//@ apply before "return r, eq" when {HIGH}: rnd_exact_frac(RM, sign(d), rs(V, XE), C, XC, XE)
+//@ assert before "return r, eq": HIGH ==> rs(V, XE) == XC
+//@ assert before "return r, eq": !special(d) && coef(d) != 0 ==> !special(r) && rs(V, XE) == XC
+//@ apply before "return r, eq" when {FIN}: cmpmag_is_real_order(V, V, XC, XE, C, E)
+//@ props C11
+
+// Compose(Decompose(d)) never fails and is Equal to d with d's sign, also with a caller-supplied buffer (C14).
+//@ func verifDecomposeCompose
+//@ returns (v, err, eq)
+//@ logical V real
+//@ requires !special(d) ==> V >= 0 && rs(V, bexp(d)) == coef(d)
+//@ call Decimal.Compose#1: V = ite(special(d), 0, V)
+//@ ensures tag(err) == 0
+//@ ensures isnan(d) ==> isnan(v)
+//@ ensures isinf(d) ==> isinf(v) && sign(v) == sign(d)
+//@ ensures !special(d) ==> !special(v) && sign(v) == sign(d) && rs(V, bexp(v)) == coef(v)
+//@ ensures !isnan(d) ==> eq
+//@ apply before "return v, err, eq" when {!special(d) && !special(v) && coef(d) != 0}: cmpmag_is_real_order(V, V, coef(v), bexp(v), coef(d), bexp(d))
+//@ props C14
